@@ -150,13 +150,25 @@ pub fn watch_send_if_modified_try_push(m: &EngineManager, block: Block)
 // R-stub for  `sync::wait_for(ctx, &mut self.block_store.subscribe(), |bs| bs.queued.next() >= block.number()).await?`
 #[verifier::external_body]
 pub async fn wait_for_queued_next_ge(ctx: &Ctx, w: &WatchBlockStore, n: BlockNumber) -> (r: Result<(), CtxError>) { unimplemented!() }
-impl EngineManager {
+// watch::Sender<BTreeMap<EpochNumber, ScheduleWithLifetime>>::borrow(): the map as it is now (A4); BTreeMap::get / Option::cloned (A1)
+#[verifier::external_body] pub struct EpochMapRef { _p: u8 }
+impl EpochSchedules {
     #[verifier::external_body]
-    pub fn validator_schedule(&self, epoch: EpochNumber) -> (r: Option<ScheduleWithLifetime>)
-        ensures r == self.epoch_schedule.get(epoch),
-                r.is_some() ==> r.unwrap().schedule.wf()      // schedules only enter through Schedule::new
-    { unimplemented!() }
+    pub fn borrow(&self) -> (r: EpochMapRef) ensures forall|e: EpochNumber| #[trigger] r.at(e) == self.get(e) { unimplemented!() }
 }
+impl EpochMapRef {
+    pub uninterp spec fn at(&self, e: EpochNumber) -> Option<ScheduleWithLifetime>;
+    #[verifier::external_body]
+    pub fn get(&self, e: &EpochNumber) -> (r: Option<&ScheduleWithLifetime>)
+        ensures r.is_some() == self.at(*e).is_some(), r matches Some(v) ==> *v == self.at(*e).unwrap(),
+                r matches Some(v) ==> v.schedule.wf()      // schedules only enter through Schedule::new
+    { unimplemented!() }
+    #[verifier::external_body]
+    pub fn contains_key(&self, e: &EpochNumber) -> (r: bool) ensures r == self.at(*e).is_some() { unimplemented!() }
+}
+#[verifier::external_body]
+pub fn opt_swl_cloned(o: Option<&ScheduleWithLifetime>) -> (r: Option<ScheduleWithLifetime>)      // Option<&T>::cloned with derive(Clone) (A1)
+    ensures o.is_none() ==> r.is_none(), o.is_some() ==> r == Some(*o.unwrap()) { unimplemented!() }
 """
 
 
@@ -178,6 +190,16 @@ def add_engine(U):
     ensures r.is_ok() <==> (PayloadHash(keccak(self.payload.0@)) == self.justification.message.proposal.payload
                             && self.justification.valid(genesis, epoch, validators_schedule)),
 """)
+    U.fn(F_MGR, "impl EngineManager :: fn validator_schedule", wrap="impl EngineManager", ret="r", props=U.props + ["C04"],
+         header_subs=[("validator::EpochNumber", "EpochNumber")],
+         subs=[("self.epoch_schedule.borrow().get(&epoch).cloned()", "opt_swl_cloned(self.epoch_schedule.borrow().get(&epoch))   /* R-std: .cloned() */", None),
+               (".cloned()", "", None)],
+         spec="""
+    ensures
+        // a block is verified against the committee of EXACTLY the epoch it states: no neighbouring epoch's schedule stands in
+        r == self.epoch_schedule.get(epoch),
+        r.is_some() ==> r.unwrap().schedule.wf(),
+""")
     U.fn(F_MGR, "impl EngineManager :: fn get_block", wrap="impl EngineManager", ret="r",
          header_subs=[("ctx::Ctx", "Ctx"), ("validator::BlockNumber", "BlockNumber"), ("ctx::Result<Option<Block>>", "Result<Option<Block>, CtxError>")],
          subs=[("let t = metrics::$X;", "", 1), ("t.observe();", "", 1),
@@ -198,7 +220,7 @@ def add_engine(U):
     U.fn(F_MGR, "impl EngineManager :: fn set_state", wrap="impl EngineManager", ret="r", header_subs=SH, subs=MS, props=["C08", "C03"],
          rules_=("R-log", "R-errmsg", "R-underscore", "R-ctorfn"),
          spec="    ensures r.is_ok() ==> self.interface.accepted(*state),        // Ok only if the execution layer accepted exactly this state\n")
-    U.fn(F_MGR, "impl EngineManager :: fn queue_block", wrap="impl EngineManager", ret="r", props=U.props + ["C19"],
+    U.fn(F_MGR, "impl EngineManager :: fn queue_block", wrap="impl EngineManager", ret="r", props=U.props + ["C19", "C04"],
          header_subs=[("ctx::Ctx", "Ctx"), ("ctx::Result<()>", "Result<(), CtxError>")],
          subs=[("let t = metrics::$X;", "", 1), ("t.observe();", "", 1),
                ("anyhow_error()\n                    .into()", "anyhow_into_ctx(anyhow_error())", None),
